@@ -52,7 +52,7 @@ REGISTRY["C01"] = dict(
     technique="static analysis: error-kind typestate over the resolved call graph; predicate-sensitive guard dominance; lexer-progress abstract interpretation of parser loops; reachability of explicit panic macros",
     claim=(
         "Four structural clauses, each a necessary condition of totality, decided for all sites of the current tree: (a) only Raw errors can reach SassError::raw(); "
-        "(b) every unit conversion is guarded on every path; (c) every parser loop provably consumes input or exits at end of input, or is reported; "
+        "(b) every unit conversion is guarded on every path; (c) each of the 84 loops of the parsers provably consumes input on every cycle (67), is driven by a finite std iterator (7) or is one of 10 hand-reviewed exceptions, and no loop has a forced cycle at end of input; "
         "(d) every todo!/unimplemented!/assert! site is unreachable, guarded, or in the reviewed list. NOT decided: the ~230 unwrap/unreachable!/index sites resting on value invariants, "
         "stack exhaustion on deep nesting, termination of evaluation/serialisation."
     ),
